@@ -2,9 +2,14 @@ import Genshi.Wire
 import Genshi.Model.PyGen
 import Genshi.Model.PyParse
 import Genshi.Model.PyParseS
+import Genshi.Model.PyStmtX
+import Genshi.Model.PyScope
 import Driver.PyWire
 namespace Driver.C13
 open Genshi Genshi.Py Genshi.Sexp Driver.PyWire
+
+partial def encTree : ScopeTree → Sexp
+  | .node k n gs cs => .list [.str k, .str n, .list (gs.map .str), .list (cs.map encTree)]
 
 /-- `gen tree` / `genS (stmt…)`: the tokens of the regenerated source, `raises` when the model
     says the generator raises, `unmodelled` when the tree is outside the modelled syntax -/
@@ -58,6 +63,27 @@ def handle : List Sexp → Option Sexp
           match pyParseS lines with
           | none => some (.atom "none")
           | some ss' => some (.list [.atom "ok", .list (ss'.map encS)])
+  -- statement mode of `TemplateASTTransformer` (model `xformS`), Python's scoping rule (`specModule`,
+  -- `outside` when the program is outside the domain `okModule` of the comparison theorem), the
+  -- rewriting undone after `xformS`, and the per-scope global references by Python's rule
+  | [.atom "xformS", .list ss] =>
+      match ss.mapM decS with
+      | none => some (.atom "unmodelled")
+      | some body => some (.list [.atom "ok", .list ((xformS body).map encS)])
+  | [.atom "pySpecS", .list ss] =>
+      match ss.mapM decS with
+      | none => some (.atom "unmodelled")
+      | some body =>
+        if okModule body then some (.list [.atom "ok", .list ((specModule body).map encS)])
+        else some (.atom "outside")
+  | [.atom "unxformS", .list ss] =>
+      match ss.mapM decS with
+      | none => some (.atom "unmodelled")
+      | some body => some (.list [.atom "ok", .list ((unxfB (xformS body)).map encS)])
+  | [.atom "freeGlobals", .list ss] =>
+      match ss.mapM decS with
+      | none => some (.atom "unmodelled")
+      | some body => some (.list [.atom "ok", encTree (freeGlobals body), encTree (scopeTree (xformS body))])
   | _ => none
 
 end Driver.C13
